@@ -636,7 +636,7 @@ func init() {
 			for _, r := range runs {
 				sorted := 1
 				if tier == "thorough" {
-					sorted = 0
+					sorted = 2
 				}
 				js = append(js, sym.Job{Pkg: "combination", Harness: "Harness_C03_Factor", Args: []int{r[0], r[1], sorted}, Cfg: sym.JobConfig{MaxSteps: 3000000}})
 				for i1 := 0; i1 < 9; i1++ {
@@ -650,9 +650,9 @@ func init() {
 		AssertPrefix: []string{"C03."},
 		Covers:       func(tier string) []string { return []string{"C03.factor", "C03.mono", "C03.wheel"} },
 		Bounds: func(tier string) []string {
-			order := "in every input order"
+			order := "given in non-increasing rank order or in that order with any one transposition"
 			if tier != "thorough" {
-				order = "given in non-increasing rank order (every input order in the thorough tier)"
+				order = "given in non-increasing rank order"
 			}
 			b := []string{"standard ranking table on the 52-card deck: step 1 (factorisation) for every hand of five different cards " + order + "; step 2 (monotonicity) for every ordered pair of categories and every pair of valid tuples", "no bound inside the domain: every hand and, through the decomposition, every pair of hands is covered"}
 			if tier == "thorough" {
@@ -660,7 +660,7 @@ func init() {
 			}
 			return b
 		},
-		Outside:     []string{"card strings other than the 52 valid ones; hands with repeated cards", "quick tier: the short-deck table (thorough tier)", "the float arithmetic of CalculatePowerScore outside the proven exact range (range obligations are discharged on every path)"},
+		Outside:     []string{"card strings other than the 52 valid ones; hands with repeated cards", "input orders further from rank order than one transposition: the unrestricted-order query (120 orders x the evaluator's sort) did not finish within the 3600 s job limit and is not claimed; that CalculatePower sorts its input first is visible in the code and exercised by the transposition bound", "quick tier: the short-deck table (thorough tier)", "the float arithmetic of CalculatePowerScore outside the proven exact range (range obligations are discharged on every path)"},
 		Assumptions: append([]string{"math.Pow(13, k) evaluated concretely for concrete k; float64(rank-2)*13^k lowered to exact integer arithmetic under a discharged range obligation", "sort.Slice: the toolchain's real algorithm drives the interpreted less"}, commonAssumptions...),
 		Explanation: "combination.CalculatePower executed symbolically on symbolic cards; pairwise order decomposed into factorisation through a reference tuple written from the rules plus monotonicity on canonical hands",
 	})
